@@ -12,7 +12,8 @@ THEOREMS = ["C06_partial", "C06_refuted_rename", "C06_refuted_rename_across_stat
             "C06_refuted_private_reexport", "C06_refuted_only_empty", "C06_refuted_only_dup",
             "C06_statement_refuted", "C06_order_independent", "C06_toposort_is_topo",
             "C06_private_never_imported", "C06_spec_private_never_accessible", "C06_fuel_enough",
-            "C06_example_hypotheses"]
+            "C06_example_hypotheses", "C06_nested_partial", "C06_nested_refuted_absbody",
+            "C06_nested_refuted_genbody", "C06_nested_statement_refuted", "C06_nested_example"]
 REGION_KEYS = {1: "rename-without-only", 2: "private-import-reexported", 4: "only-empty-imports-all",
                8: "only-duplicate-remote", 16: "use-in-abstract-interface-body-ignored"}
 
@@ -62,7 +63,7 @@ def witness_only_dup():
     return [EXPORTER, mod("mb", uses=[use("ma", [("foo", "foo"), ("bar", "foo")])])]
 
 
-WITNESSES = {1: [witness_rename, witness_across], 2: [witness_private], 4: [witness_only_empty], 8: [witness_only_dup]}
+WITNESSES = [witness_rename, witness_across, witness_private, witness_only_empty, witness_only_dup]
 
 
 def exhaustive_layer():
@@ -100,6 +101,85 @@ def exhaustive_layer():
                                  ref_var("tz1", "extends", "ta1")]
                 out.append((f"exh:{fname}:{default}:{access}", [EXPORTER, mb, mc, prog]))
     return out
+
+
+def nd(name, kind, uses=(), refs=(), children=()):
+    return {"name": name, "kind": kind, "uses": list(uses), "children": list(children),
+            "refs": [{"what": w, "id": i, "var": f"w{name}{k}"} for k, (w, i) in enumerate(refs, 1)]}
+
+
+def nested_decl(node, kind):
+    return {"name": node["name"], "kind": kind, "perm": "public", "how": "default", "ref": None, "function": False,
+            "node": node}
+
+
+NESTED_ZA = mod("za", "public", [("ta", "type", "public"), ("pa", "proc", "public"), ("ia", "abs", "public"),
+                                 ("tq", "type", "private")])
+
+
+def nested_module(form, us, refs_type=("ta",), refs_call=("pa",), refs_abs=("ia",)):
+    """module mm whose only USE statements sit in a nested scope of the given form"""
+    tr = [("type", n) for n in refs_type] + [("procptr", n) for n in refs_abs]
+    full = tr + [("call", n) for n in refs_call]
+    mm = mod("mm", "public")
+    if form == "modproc":
+        mm["decls"].append(nested_decl(nd("p", "routine", us, full), "proc"))
+    elif form == "internal":
+        mm["decls"].append(nested_decl(nd("p", "routine", [], [], [nd("q", "routine", us, full)]), "proc"))
+    elif form == "ifbody_mod":
+        mm["decls"].append(nested_decl(nd("ext", "ifbody", us, tr), "iface"))
+    elif form == "ifbody_proc":
+        mm["decls"].append(nested_decl(nd("p", "routine", [], [], [nd("ext", "ifbody", us, tr)]), "proc"))
+    elif form == "internal_ifbody":
+        mm["decls"].append(nested_decl(nd("p", "routine", [], [], [nd("q", "routine", [], [], [nd("ext", "ifbody", us, tr)])]), "proc"))
+    elif form == "host_chain":
+        # the USE is in the module procedure, the references in its internal procedure
+        mm["decls"].append(nested_decl(nd("p", "routine", us, [], [nd("q", "routine", [], full)]), "proc"))
+    elif form == "absint_mod":
+        mm["decls"].append(nested_decl(nd("cb", "absbody", us, tr), "abs"))
+    elif form == "absint_proc":
+        mm["decls"].append(nested_decl(nd("p", "routine", [], [], [nd("cb", "absbody", us, tr)]), "proc"))
+    elif form == "generic_body":
+        d = {"name": "gg", "kind": "generic", "perm": "public", "how": "default", "ref": None, "function": False,
+             "body": nd("ext", "genbody", us, tr)}
+        mm["decls"] += [d, {"name": "ext", "kind": "proc", "perm": "public", "how": "default", "ref": None,
+                            "function": False, "in_generic": "gg"}]
+    else:
+        raise ValueError(form)
+    return mm
+
+
+NESTED_FORMS = ["modproc", "internal", "ifbody_mod", "ifbody_proc", "internal_ifbody", "host_chain",
+                "absint_mod", "absint_proc", "generic_body"]
+
+
+def nested_layer():
+    """the USE statement that creates the ordering dependency sits only in a nested scope of mm; the used
+    module zf re-exports za's entities (plainly, through ONLY, renamed, through a further module)"""
+    out = []
+    chains = {
+        "plain": ([mod("zf", uses=[use("za")])], [use("zf")], ("ta",), ("pa",), ("ia",)),
+        "only": ([mod("zf", "private", access=[("ta", True), ("pa", True), ("ia", True)], uses=[use("za")])],
+                 [use("zf", [("ta", "ta"), ("pa", "pa"), ("ia", "ia")])], ("ta",), ("pa",), ("ia",)),
+        "renamed": ([mod("zf", uses=[use("za", [("tf", "ta"), ("pf", "pa"), ("jf", "ia")])])],
+                    [use("zf", [("tl", "tf"), ("pf", "pf"), ("jf", "jf")], prefix="non_intrinsic")], ("tl",), ("pf",), ("jf",)),
+        "two_hops": ([mod("zf", uses=[use("zg")]), mod("zg", uses=[use("za", [("ta", "ta"), ("pa", "pa"), ("ia", "ia")])])],
+                     [use("zf")], ("ta",), ("pa",), ("ia",)),
+        "direct": ([], [use("za", [("ta", "ta"), ("pa", "pa"), ("ia", "ia")])], ("ta",), ("pa",), ("ia",)),
+        "private_not": ([mod("zf", uses=[use("za")])], [use("zf")], ("ta", "tq"), ("pa",), ("ia",)),
+    }
+    for form in NESTED_FORMS:
+        for cname, (mids, us, rt, rc, ra) in chains.items():
+            out.append((f"nested:{form}:{cname}", [nested_module(form, us, rt, rc, ra)] + mids + [NESTED_ZA]))
+    return out
+
+
+def witness_absbody():
+    return [nested_module("absint_mod", [use("za")], ("ta",), (), ()), NESTED_ZA]
+
+
+def witness_genbody():
+    return [nested_module("generic_body", [use("zf")], ("ta",), (), ()), mod("zf", uses=[use("za")]), NESTED_ZA]
 
 
 def cyclic_cases():
@@ -226,6 +306,16 @@ def distribution(all_units):
         md = max([dep(n) for n in names], default=0)
         d["max_chain_depth"][md] = d["max_chain_depth"].get(md, 0) + 1
         for u in units:
+            for path, kinds, nd_ in G.nested_nodes(u):
+                ks = [k for k in kinds if k != "genblock"]
+                key = "/".join(ks)
+                d.setdefault("nested_scopes", {})
+                d["nested_scopes"][key] = d["nested_scopes"].get(key, 0) + 1
+                d["nested_use_statements"] = d.get("nested_use_statements", 0) + len(nd_["uses"])
+                d["references"] += len(nd_["refs"])
+                shallow = {x["target"].lower() for x in u["uses"]}
+                d["nested_use_of_module_not_used_shallower"] = d.get("nested_use_of_module_not_used_shallower", 0) + sum(
+                    1 for x in nd_["uses"] if x["target"].lower() in names and x["target"].lower() not in shallow)
             d["default_private_modules"] += u["unit"] == "module" and u["default"] == "private"
             d["access_statements_on_imports"] += len(u["access"])
             d["references"] += sum(1 for x in u["decls"] if x.get("ref")) + len(u["calls"])
@@ -276,9 +366,8 @@ def run(chk):
     R = Runner(chk)
     t0 = time.time()
     # 1. corpus: the recorded witnesses and saved cases
-    for bit, ws in WITNESSES.items():
-        for w in ws:
-            R.add("witness:" + w.__name__, w(), file_orders(rng, w(), 2))
+    for w in WITNESSES + [witness_absbody, witness_genbody]:
+        R.add("witness:" + w.__name__, w(), file_orders(rng, w(), 2))
     for f in sorted((core.VERIF / "corpus" / "C06").glob("*.json")):
         units = json.load(open(f))["units"]
         R.add("corpus:" + f.name, units, file_orders(rng, units, 2))
@@ -287,6 +376,10 @@ def run(chk):
     html_pick = set(rng.sample(range(len(exh)), 5 if quick else 40))
     for k, (label, units) in enumerate(exh):
         R.add(label, units, file_orders(rng, units, 1 if quick else 3), html=k in html_pick)
+    # 2b. USE statements only in nested scopes (module / internal procedures, interface bodies) of a
+    #     module, the used module re-exporting from further modules: every file order
+    for label, units in nested_layer():
+        R.add(label, units, file_orders(rng, units, "all" if len(units) <= 3 or not quick else 3))
     # 3. random DAGs (mostly legal, region-free), two file orders each
     n_random = 320 if quick else 4000
     for k in range(n_random):
@@ -334,6 +427,18 @@ def replay_findings(chk):
     t = tabs(witness_only_dup())
     keys = dict(t["mb"]["all"][3]) if t else {}
     chk.known("only-duplicate-remote", bool(t) and "foo" not in keys)
+
+    def nested_types(units, path):
+        files, where = G.render_files(units)
+        obs, _, _ = I.observe(units, files, where, [u["name"] for u in units])
+        if not isinstance(obs, dict):
+            return None
+        q = [x for x in obs["nested"] if x["unit"] == "mm" and x["path"] == path]
+        return dict(q[0]["all"][2]) if q else None
+    t = nested_types(witness_absbody(), ["cb"])
+    chk.known("use-in-abstract-interface-body-ignored", t is not None and "ta" not in t)
+    t = nested_types(witness_genbody(), ["ext"])
+    chk.known("use-in-generic-interface-body-not-a-dependency", t is not None and "ta" not in t)
 
 
 def replay(chk, rep):
